@@ -302,13 +302,14 @@ type vfTgtStream struct {
 }
 
 type vfSrc struct {
-	idx      int
-	script   []vfBatch // what the source will send on the current pull stream (resumes from its acked level after a reconnect)
-	pos      int
-	wmUsed   int
-	curHigh  int64
-	incoming []*vfServerStream
-	pulls    []*vfSrcPull
+	failNextOpen bool // the next stream the proxy opens towards this source shard fails (C08 scenarios)
+	idx          int
+	script       []vfBatch // what the source will send on the current pull stream (resumes from its acked level after a reconnect)
+	pos          int
+	wmUsed       int
+	curHigh      int64
+	incoming     []*vfServerStream
+	pulls        []*vfSrcPull
 }
 
 type vfSrcPull struct {
@@ -334,6 +335,7 @@ type vfRouteExec struct {
 	sc           *vfRouteScenario
 	sm           *shardManagerImpl
 	hmu          sync.Mutex
+	regOps       []vfRegOp
 	handoff      []chan RoutedMessage
 	handoffEnded map[chan RoutedMessage]bool
 	stranded     map[string]bool
@@ -470,6 +472,89 @@ func (r *vfSMRecorder) SetRemoteSendChan(shardID history.ClusterShardID, ch chan
 	r.shardManagerImpl.SetRemoteSendChan(shardID, ch)
 }
 
+// registry operations of the receiver side, with the root thread (= stream incarnation) that performed them
+type vfRegOp struct {
+	Op, Shard, By string
+}
+
+func (r *vfSMRecorder) note(op string, shard history.ClusterShardID) {
+	by := vrt.CurName()
+	if i := strings.Index(by, "/"); i >= 0 {
+		by = by[:i]
+	}
+	r.e.hmu.Lock()
+	r.e.regOps = append(r.e.regOps, vfRegOp{op, ClusterShardIDtoShortString(shard), by})
+	r.e.hmu.Unlock()
+}
+
+func (r *vfSMRecorder) RegisterActiveReceiver(shard history.ClusterShardID, recv ActiveReceiver) {
+	r.shardManagerImpl.RegisterActiveReceiver(shard, recv)
+	r.note("register-active-receiver", shard) // after the call: the log is in the order of the effects (no scheduling point lies between)
+}
+func (r *vfSMRecorder) UnregisterActiveReceiver(shard history.ClusterShardID) {
+	r.shardManagerImpl.UnregisterActiveReceiver(shard)
+	r.note("unregister-active-receiver", shard) // after the call: the log is in the order of the effects (no scheduling point lies between)
+}
+func (r *vfSMRecorder) SetLocalReceiverCancelFunc(shard history.ClusterShardID, f context.CancelFunc) {
+	r.shardManagerImpl.SetLocalReceiverCancelFunc(shard, f)
+	r.note("set-cancel-func", shard) // after the call: the log is in the order of the effects (no scheduling point lies between)
+}
+func (r *vfSMRecorder) RemoveLocalReceiverCancelFunc(shard history.ClusterShardID) {
+	r.shardManagerImpl.RemoveLocalReceiverCancelFunc(shard)
+	r.note("remove-cancel-func", shard) // after the call: the log is in the order of the effects (no scheduling point lies between)
+}
+
+// registryKeys: which shards have an entry in each table of the shard manager (keys only).
+func (e *vfRouteExec) registryKeys() map[string][]string {
+	sm := e.sm
+	out := map[string][]string{}
+	keys := func(name string, ks []history.ClusterShardID) {
+		xs := []string{}
+		for _, k := range ks {
+			xs = append(xs, ClusterShardIDtoShortString(k))
+		}
+		sort.Strings(xs)
+		out[name] = xs
+	}
+	sm.mutex.RLock()
+	ls := []string{}
+	for k := range sm.localShards {
+		ls = append(ls, k)
+	}
+	sm.mutex.RUnlock()
+	sort.Strings(ls)
+	out["ownership"] = ls
+	var ks []history.ClusterShardID
+	sm.remoteSendChannelsMu.RLock()
+	for k := range sm.remoteSendChannels {
+		ks = append(ks, k)
+	}
+	sm.remoteSendChannelsMu.RUnlock()
+	keys("delivery-channel", ks)
+	ks = nil
+	sm.localAckChannelsMu.RLock()
+	for k := range sm.localAckChannels {
+		ks = append(ks, k)
+	}
+	sm.localAckChannelsMu.RUnlock()
+	keys("ack-channel", ks)
+	ks = nil
+	sm.localReceiverCancelFuncsMu.RLock()
+	for k := range sm.localReceiverCancelFuncs {
+		ks = append(ks, k)
+	}
+	sm.localReceiverCancelFuncsMu.RUnlock()
+	keys("cancel-func", ks)
+	ks = nil
+	sm.activeReceiversMu.RLock()
+	for k := range sm.activeReceivers {
+		ks = append(ks, k)
+	}
+	sm.activeReceiversMu.RUnlock()
+	keys("active-receiver", ks)
+	return out
+}
+
 func (r *vfSMRecorder) RemoveRemoteSendChan(shardID history.ClusterShardID, ch chan RoutedMessage) {
 	r.shardManagerImpl.RemoveRemoteSendChan(shardID, ch)
 	r.e.hmu.Lock()
@@ -535,6 +620,11 @@ func (e *vfRouteExec) onSourcePullOpen(cs *vfClientStream) error {
 		return nil
 	}
 	s := e.src[cs.sv.ShardID-1]
+	if s.failNextOpen {
+		s.failNextOpen = false
+		e.logf("S%d: the proxy's attempt to open a pull stream fails", s.idx)
+		return errors.New("verif: cannot open the stream towards the source")
+	}
 	p := &vfSrcPull{vfClientStream: cs}
 	inc := len(s.pulls)
 	s.pulls = append(s.pulls, p)
